@@ -46,6 +46,7 @@ def setup(ctx):
     ctx.require("monitor", "rejected_connections", 150)
     ctx.require("monitor", "titan_connections", 100)
     ctx.require("monitor", "l2_connections", 20)
+    ctx.require("monitor", "connections_after_other_clients", 50)
 
 
 class Recorder:
@@ -189,7 +190,7 @@ REQUESTS = [
     (b"titan://example.org/up.txt;size=x\r\nhello", "titan-invalid", False),
 ]
 
-SCHEDULES = ["plain", "extra-reads", "disconnect-pending", "split"]
+SCHEDULES = ["plain", "extra-reads", "disconnect-pending", "split", "after-other-clients"]
 
 
 def run_conn(ctx, chain_specs, req, label, valid, schedule, has_cert, handler_kind, base, level="L1", backend=None):
@@ -231,6 +232,27 @@ def run_conn(ctx, chain_specs, req, label, valid, schedule, has_cert, handler_ki
             handler, upload = h, U()
         else:
             handler, upload = spy_h, spy_u
+        # state carried from earlier connections (caches, counters) must not change this connection's fate:
+        # optionally a few other clients talk to the very same chain / handler objects first
+        n_prior = 0
+        if level == "L1" and schedule == "after-other-clients":
+            schedule = "plain"
+            other = certs.identity("c04-other-client", "rsa")
+            priors = [(("::c633:6417", 40124), None, b"gemini://example.org/doc.gmi\r\n"),          # numerically equal IPv6 peer, no cert
+                      (("203.0.113.9", 40125), other.der, b"gemini://example.org/private/doc.gmi\r\n"),  # another client with a certificate
+                      (PEER, (None if ident else other.der), b"gemini://example.org/\r\n")]  # same address, the opposite certificate situation
+            for peername, der, preq in priors:
+                psim = ServerSim(lambda: GeminiServerProtocol(handler, chain, upload), peername=peername, peercert_der=der, loop=loop, log=[])
+                psim.start()
+                psim.feed(preq)
+                psim.finish()
+                n_prior += 1
+            spy_h.calls.clear()
+            spy_u.calls.clear()
+            for c in comps:
+                c.calls.clear()
+            log.clear()
+            ctx.count("monitor", "connections_after_other_clients")
         before = fstree.snapshot([updir])
         audit.start()
         if level == "L1":
